@@ -30,6 +30,25 @@ thread_local! {
     static DEPTH: Cell<u32> = const { Cell::new(0) };
     static EXACT: Cell<bool> = const { Cell::new(false) };
     static CURRENT_INPUT: Cell<Option<LayoutInput>> = const { Cell::new(None) };
+    static QUIET: Cell<bool> = const { Cell::new(false) };
+    static BUDGET: Cell<u64> = const { Cell::new(0) };
+}
+
+/// allow at most `n` further layout queries on this thread (0 = unlimited); the query after the last allowed one panics
+/// with "verif-query-budget-exceeded". Lets cost measurements stop an exponential pass that never calls a measure function.
+pub fn set_query_budget(n: u64) {
+    BUDGET.with(|b| b.set(n));
+}
+
+/// switch "quiet-hit" cache mode on or off for this thread: every `Cache::store` first drops the node's
+/// PerformLayout entry, so a PerformLayout hit is only possible when the node's algorithm body has not been
+/// evaluated (in any run mode) since that entry was stored. Neutraliser for the finding "a ComputeSize evaluation
+/// of a container rewrites its children's layouts between a PerformLayout store and a later hit on it".
+pub fn set_quiet_hit_mode(on: bool) {
+    QUIET.with(|e| e.set(on));
+}
+pub fn quiet_hit_mode() -> bool {
+    QUIET.with(|e| e.get())
 }
 
 /// start recording queries on this thread
@@ -43,6 +62,16 @@ pub fn trace_take() -> Vec<TraceEvent> {
 }
 pub fn enter() {
     DEPTH.with(|d| d.set(d.get() + 1));
+    BUDGET.with(|b| {
+        let v = b.get();
+        if v > 0 {
+            if v == 1 {
+                b.set(0);
+                panic!("verif-query-budget-exceeded");
+            }
+            b.set(v - 1);
+        }
+    });
 }
 pub fn exit(node: NodeId, input: &LayoutInput, output: &LayoutOutput, kind: QueryKind) {
     let depth = DEPTH.with(|d| {
